@@ -227,13 +227,11 @@ def _execute(plan, tr):
                 if not any(got == splits[s]["mnemonic"] for s in range(len(splits))):
                     fail("V4", "wrong_secret", f"recover_mnemonic returned a mnemonic that is no split's original ({len(collected)} shares, qualities {[c[3] for c in collected]})")
                     return
-                s_hit = [s for s in range(len(splits)) if got == splits[s]["mnemonic"]][0]
-                kk = splits[s_hit]["spec"]["k"]
-                distinct = len(by_split.get(s_hit, ()))
-                # identical mnemonics in two splits: count the best split
-                best = max((len(v) for s, v in by_split.items() if splits[s]["mnemonic"] == got), default=0)
-                if best < kk:
-                    fail("V2", "below_threshold_returned", f"recover_mnemonic returned the secret from {best} distinct genuine shares, threshold is {kk}")
+                # several splits may share the same secret: the return is legitimate if ANY of them had its threshold of genuine shares
+                hits_ = [s for s in range(len(splits)) if got == splits[s]["mnemonic"]]
+                if not any(len(by_split.get(s, ())) >= splits[s]["spec"]["k"] for s in hits_):
+                    s_hit = hits_[0]
+                    fail("V2", "below_threshold_returned", f"recover_mnemonic returned the secret from {len(by_split.get(s_hit, ()))} distinct genuine shares, threshold is {splits[s_hit]['spec']['k']}")
                     return
             else:
                 tr.probe("wrong_passphrase_returned")
